@@ -25,7 +25,12 @@ pub fn plan(o: &Opts) -> Vec<GroupSpec> {
       // (every fifth program is built around a binary eqrel relation, the provider that has a parallel implementation)
       "C02" => plan_par(o, "C02", 72, 720, true, |r| {
          if vcore::rng::Src::chance(r, 22) {
-            vcore::gen_ds::gen_byods(r, &GenCfg::core(), vcore::ast::Ds::EqRel, false)
+            let mut p = vcore::gen_ds::gen_byods(r, &GenCfg::core(), vcore::ast::Ds::EqRel, false);
+            // the rules the parallel front end rejects (open finding KF-9) are left out: more of these programs get parallel members
+            for _ in 0..gen::drop_kf9_rules(&mut p) {
+               crate::count_excluded("KF-9 (rule left out of a C02 eqrel program)");
+            }
+            p
          } else {
             gen::gen_any(r, &GenCfg::core())
          }
@@ -40,7 +45,19 @@ pub fn plan(o: &Opts) -> Vec<GroupSpec> {
       "C12" => plan_ds(o, "C12", vcore::ast::Ds::TrRelUf),
       "C13" => plan_c13(o),
       "C14" => plan_c14(o),
-      "C20" => plan_par(o, "C20", 30, 120, false, |r| gen::gen_any(r, &GenCfg::core())),
+      "C20" => plan_par(o, "C20", 30, 120, false, |r| {
+         // every fifth program is built around a binary eqrel relation (its parallel provider has scans and merges of its own)
+         if vcore::rng::Src::chance(r, 20) {
+            let mut p = vcore::gen_ds::gen_byods(r, &GenCfg::core(), vcore::ast::Ds::EqRel, false);
+            // the rules the parallel front end rejects (open finding KF-9) are left out, so that the program has a parallel member
+            for _ in 0..gen::drop_kf9_rules(&mut p) {
+               crate::count_excluded("KF-9 (rule left out of a C20 eqrel program)");
+            }
+            p
+         } else {
+            gen::gen_any(r, &GenCfg::core())
+         }
+      }),
       "C03" => plan_simple(o, "C03", 120, 1500, |r| vcore::gen_lat::gen_lattice(r, &GenCfg::core())),
       other => panic!("no plan for property {other}"),
    }
